@@ -499,6 +499,13 @@ class AlignmentCollector:
             max_cov = coverage_dict[current_start]
             pos = min(current_start + 1, coverage_positions[-1] + 1)
 
+        if not split_regions:
+            # all alignments fall into a single coverage bin, nothing to split
+            return [genomic_region]
+        # sub-regions must tile the entire region, otherwise alignments located at its very first base
+        # or in its last coverage bin (when the loop stops right before it) are not assigned to any sub-region
+        split_regions[0] = (genomic_region[0], split_regions[0][1])
+        split_regions[-1] = (split_regions[-1][0], genomic_region[1])
         return split_regions
 
     @staticmethod
